@@ -1,19 +1,18 @@
 SPECIFICATION Spec
 CONSTANTS
-  Kinds = {"tcp"}
+  Kinds = {"usb", "tcp", "udp", "radio"}
   CbModes = {TRUE, FALSE}
   SlModes = {TRUE}
-  Bug = "keepHandleOnError"
+  Bug = "none"
   Faults = {"none", "f1", "f2"}
-  MaxOps = 5
+  MaxOps = 4
   MaxSess = 2
   MaxReq = 2
-  MaxIdle = 2
-  MaxErr = 2
-  HsMax = 2
-  Retries = 2
-  JamLen = 3
+  MaxIdle = 1
+  MaxErr = 1
+  HsMax = 10
+  Retries = 3
+  JamLen = 4
   KeepHistory = TRUE
 INVARIANT HistoryOK
-VIEW NoHistory
 CHECK_DEADLOCK FALSE
